@@ -77,13 +77,13 @@ func zzAsmSqr(feature bool) {
 	zzAssert(zzWCong(zzWLE(z[:]), want, zzP), "assembly square congruent to x*x mod p")
 }
 
-//zz: prop=C14 tier=thorough backend=lia timeout=1800
+//zz: prop=C14 tier=deep backend=lia timeout=7200
 func ZZ_C14_fp448_asm_sqr_legacy() { zzAsmSqr(false) }
 
 // the MULX/ADX squaring multiplies by (2*x_i + carry) mod 2^64; the LIA translator distributes such
 // products over the carry-chain additions (smt.go prodExpr) so that they are tied to x_i*x_j
 //
-//zz: prop=C14 tier=thorough backend=lia timeout=3600
+//zz: prop=C14 tier=deep backend=lia timeout=7200
 func ZZ_C14_fp448_asm_sqr_bmi2adx() { zzAsmSqr(true) }
 
 //zz: prop=C14 tier=quick backend=bv timeout=120
